@@ -44,6 +44,12 @@
 // handled.  Still only counted: a vote output that only the pool knows is offered for a veto
 // (obs:unconfirmed-offer-not-on-chain-is-vote-output).
 //
+// Also run: the "race" stream (updater held between InMainChain and GetBlockByHeight while the node
+// reorganises; oracle only) and the "msig" stream (multi-signature accounts, P2WSH) of harness/c24.
+// Every usable record must be spendable AS OFFERED: a record filed as plain BTM whose output is a vote
+// output on the wallet's chain (or the reverse) is class=offered-as-wrong-kind.  A wallet that does not
+// settle within 5 s ends its case with class=wallet-not-following (see harness/c24).
+//
 // Direct oracle (implementation outputs only), after EVERY delivery, for every usable record:
 // the REAL state.UtxoViewpoint applied to the chain the wallet is attached to must hold the output
 // unspent (class=phantom-reported-mature) and its ApplyTransaction must accept a spend of it in a
@@ -111,6 +117,15 @@ func run(c *Ctx) error {
 	for i, n := 0, c.N(40, 100); i < n; i++ {
 		cases = append(cases, &wsim.Case{ID: len(cases), Seed: c.Rng.Next(), Kind: "pool"})
 	}
+	// the "race" stream (see harness/c24): the updater held between its two chain reads while the node
+	// reorganises; oracle only
+	for i, n := 0, c.N(30, 80); i < n; i++ {
+		cases = append(cases, &wsim.Case{ID: len(cases), Seed: c.Rng.Next(), Kind: "race"})
+	}
+	// the "msig" stream: random trees that also pay the wallet's multi-signature accounts (P2WSH)
+	for i, n := 0, c.N(24, 80); i < n; i++ {
+		cases = append(cases, &wsim.Case{ID: len(cases), Seed: c.Rng.Next(), Kind: "msig"})
+	}
 	res, err := wsim.RunAll("c25", cases)
 	if err != nil {
 		return err
@@ -132,7 +147,7 @@ func run(c *Ctx) error {
 		if r.Panic != "" || r.Hang {
 			what := "class=crash: the node/wallet process died: " + r.Panic
 			if r.Hang {
-				what = "class=hang: no answer within 300 s"
+				what = "class=hang: no answer within 150 s"
 			}
 			c.Stats.Fail(what, descr)
 			c.Stats.Case(key, false)
@@ -170,6 +185,11 @@ func run(c *Ctx) error {
 			c.Stats.CaseIndex[fmt.Sprint(kid)] = map[string]interface{}{"keeper_observation": i, "case": descr}
 			c.Stats.Count("keeper_model_evaluated")
 			c.Stats.Count("model_evaluated")
+		}
+		if cs.Kind == "race" || r.Abort {
+			// held deliveries are not observed one by one / the case was cut short: oracle only
+			c.Stats.Count("oracle_only_cases")
+			continue
 		}
 		var obs []string
 		for _, d := range r.Delivs {
